@@ -243,6 +243,25 @@ func ruleConfigAgreement(c *Ctx) {
 			var keyVal ssa.Value
 			var appends []*ssa.Call
 			var lookup *ssa.Call
+			var lookupKey ssa.Value
+			// isKey: a load of keys[i] for the same index value as the first such load (go/ssa
+			// does not share the loads of two mentions of keys[n])
+			isKey := func(v ssa.Value) bool {
+				if keyVal == nil {
+					return false
+				}
+				v = strip(v)
+				if v == keyVal {
+					return true
+				}
+				ld, ok := v.(*ssa.UnOp)
+				if !ok || ld.Op != token.MUL {
+					return false
+				}
+				ia, ok := ld.X.(*ssa.IndexAddr)
+				k0 := keyVal.(*ssa.UnOp).X.(*ssa.IndexAddr)
+				return ok && strip(ia.X) == strip(k0.X) && ia.Index == k0.Index
+			}
 			for _, b := range loop.sortedBlocks() {
 				for _, ins := range b.Instrs {
 					if call, ok := ins.(*ssa.Call); ok {
@@ -252,9 +271,26 @@ func ruleConfigAgreement(c *Ctx) {
 						}
 						if strings.HasSuffix(n, "Config).ConfigString") {
 							lookup = call
+							lookupKey = call.Common().Args[1]
+						} else if h := staticCallee(call.Common()); h != nil && inFramework(h) && h.Blocks != nil && lookup == nil {
+							// a helper that looks its parameter up with ConfigString
+							allInstrs(h, func(i2 ssa.Instruction) {
+								c2, ok := i2.(*ssa.Call)
+								if !ok || !strings.HasSuffix(calleeName(c2.Common()), "Config).ConfigString") {
+									return
+								}
+								if par, ok := strip(c2.Common().Args[1]).(*ssa.Parameter); ok {
+									for i, hp := range h.Params {
+										if hp == par && i < len(call.Common().Args) {
+											lookup = call
+											lookupKey = call.Common().Args[i]
+										}
+									}
+								}
+							})
 						}
 					}
-					if ld, ok := ins.(*ssa.UnOp); ok && ld.Op == token.MUL {
+					if ld, ok := ins.(*ssa.UnOp); ok && ld.Op == token.MUL && keyVal == nil {
 						if ia, ok := ld.X.(*ssa.IndexAddr); ok {
 							if _, isPar := strip(ia.X).(*ssa.Parameter); isPar {
 								keyVal = ld
@@ -266,14 +302,14 @@ func ruleConfigAgreement(c *Ctx) {
 			if keyVal == nil {
 				problems = append(problems, "the loop does not iterate the request-ordered slice argument")
 			}
-			if lookup == nil || keyVal == nil || strip(lookup.Common().Args[1]) != keyVal {
+			if lookup == nil || keyVal == nil || !isKey(lookupKey) {
 				problems = append(problems, "the value is not looked up under the iterated key")
 			}
 			if len(appends) < 2 {
 				problems = append(problems, "key and value are not both appended")
 			} else {
 				first := appends[0]
-				if mk, ok := strip(first.Common().Args[1]).(*ssa.Call); !ok || len(mk.Common().Args) != 1 || strip(mk.Common().Args[0]) != keyVal {
+				if mk, ok := strip(first.Common().Args[1]).(*ssa.Call); !ok || len(mk.Common().Args) != 1 || !isKey(mk.Common().Args[0]) {
 					problems = append(problems, "the first element appended per key is not the key")
 				}
 				for _, a := range appends[1:] {
